@@ -12,7 +12,7 @@
        every --sort mode (C13 permutation; --sort none: /repo fix 78f0f84). *)
 From Coq Require Import Permutation.
 From TV Require Import Prelude.Str Prelude.PosixPath Prelude.Utf8 Codec.Quote Codec.DateFmt Codec.TrashInfo Logic.OrigLoc Logic.Scope
-  Prog.Prog Cmd.Put Cmd.Restore Proofs.TrashInfoProofs Proofs.OrigLocProofs Proofs.LogicProofs Proofs.SortProofs.
+  Prog.Prog Cmd.Put Cmd.Restore Proofs.TrashInfoProofs Proofs.OrigLocProofs Proofs.LogicProofs Proofs.SortProofs World.World Proofs.WorldProofs.
 Open Scope N_scope.
 
 (* home trash: the Path is absolute and restore gets back realpath(parent)/basename whatever volume it attaches *)
@@ -73,6 +73,16 @@ Print Assumptions offered_from_ancestors.
 Theorem listed_under_every_sort : forall m l, Permutation l (sort_files m l).
 Proof. intros m l. destruct m; simpl; [apply sort_stable_perm|apply sort_stable_perm|apply Permutation_refl]. Qed.
 Print Assumptions listed_under_every_sort.
+
+(* ---- on the tree of files (World.v): trash-put moves the entry to a payload path at and below which nothing exists (C04:
+   put_never_moves_onto_something), trash-restore moves it from there to its original location, which is where it came from
+   (roundtrip_location_home, roundtrip_location_topdir) and which is absent at that moment (C06: restore_destination_is_absent).  Both moves are the
+   relocation World.mv_tree, and moving a tree to a free place and back again leaves EVERY path of the world as it was: ---- *)
+Theorem there_and_back_again : forall w src dst,
+  (forall q, under dst q = true -> w q = None) ->
+  forall q, mv_tree (mv_tree w src dst) dst src q = w q.
+Proof. exact mv_tree_back. Qed.
+Print Assumptions there_and_back_again.
 
 Example roundtrip_example :
   exists b, format_trashinfo (orig_loc_result ($"d/a b%") ($"/vol/x/d") ($"/vol") RelativePaths) (mkdt 2024 1 2 3 4 5 0) = Some b
